@@ -1142,11 +1142,12 @@ impl TDigestView<'_> {
             return None;
         }
 
-        if self.centroids.len() == 1 {
+        // A single centroid that is not a singleton spreads its weight between min and max:
+        // the tail interpolation below covers it (and returns min at 0 and max at 1).
+        if self.centroids.len() == 1 && self.centroids[0].weight.get() == 1 {
             return Some(self.centroids[0].mean);
         }
 
-        // at least 2 centroids
         let centroids_weight = self.centroids_weight as f64;
         let num_centroids = self.centroids.len();
         let weight = rank * centroids_weight;
